@@ -39,7 +39,7 @@ var vtaRes vtaResult
 // the quick tier's graph. The quick graph must over-approximate VTA.
 func vtaCrossCheck(p *Prog) vtaResult {
 	vtaOnce.Do(func() {
-		env := append(os.Environ(), "GOWORK=off", "GOFLAGS=-mod=mod", "GOPROXY=off", "GOSUMDB=off", "GOTOOLCHAIN=local")
+		env := append(os.Environ(), "GOWORK=off", "GOFLAGS=-mod=mod -trimpath", "GOPROXY=off", "GOSUMDB=off", "GOTOOLCHAIN=local")
 		cfg := &packages.Config{Mode: packages.LoadAllSyntax, Dir: p.Dir, Tests: false, Env: env}
 		pkgs, err := packages.Load(cfg, "./...")
 		if err != nil {
@@ -205,7 +205,7 @@ func runMutant(m mutantSpec, prop, repo, verif string) mutantOutcome {
 		return out
 	}
 	os.WriteFile(path, []byte(strings.Replace(string(b), m.Old, m.New, 1)), 0o644)
-	env := append(os.Environ(), "GOWORK=off", "GOFLAGS=-mod=mod", "GOPROXY=off", "GOSUMDB=off", "GOTOOLCHAIN=local")
+	env := append(os.Environ(), "GOWORK=off", "GOFLAGS=-mod=mod -trimpath", "GOPROXY=off", "GOSUMDB=off", "GOTOOLCHAIN=local")
 	build := exec.Command("go", "build", "./...")
 	build.Dir, build.Env = dst, env
 	if o, err := build.CombinedOutput(); err != nil {
